@@ -234,6 +234,11 @@ def native_next(name, conc, notes):
                 first_bad = (i + 1, a)
                 break
     except RuntimeError as e:
+        if l.base_addr >> 22 != mine:
+            return {"inputs": {"address number": mine, "calls": i + 1}, "reproduced": True,
+                    "detail": f"real FMMULock.get_next_addr raised RuntimeError({e}) at call {i + 1} and left "
+                              f"base_addr = {hex(l.base_addr)}, in the window of address number "
+                              f"{l.base_addr >> 22}: remove() would clear that participant's bit, not {mine}'s"}
         return {"inputs": {"address number": mine, "calls": i + 1}, "reproduced": False,
                 "detail": f"real FMMULock.get_next_addr raised RuntimeError({e}) at call {i + 1}: the window is "
                           f"never left"}
